@@ -6,6 +6,7 @@ import (
 
 	"github.com/opsidian/parsley/ast"
 	"github.com/opsidian/parsley/combinator"
+	"github.com/opsidian/parsley/data"
 	"github.com/opsidian/parsley/examples/json/json"
 	"github.com/opsidian/parsley/parser"
 	"github.com/opsidian/parsley/parsley"
@@ -64,8 +65,14 @@ func arithGraph() parsley.Parser {
 	})
 	var expr, term, factor parser.Func
 	tok := func(p parsley.Parser) parsley.Parser { return text.LeftTrim(p, text.WsSpacesNl) }
+	// a user-supplied leaf parser (abort point while the parse is in flight)
+	integer := terminal.Integer(nil)
+	userInt := parser.Func(func(ctx *parsley.Context, lrc data.IntMap, pos parsley.Pos) (parsley.Node, data.IntSet, parsley.Error) {
+		sim.AbortPoint()
+		return integer.Parse(ctx, lrc, pos)
+	})
 	factor = combinator.Memoize(combinator.Choice(
-		tok(terminal.Integer(nil)),
+		tok(userInt),
 		combinator.SeqOf(tok(terminal.Rune('(')), &expr, tok(terminal.Rune(')'))).Bind(selectI(1)),
 	).Name("factor"))
 	term = combinator.Memoize(combinator.Any(
